@@ -15,6 +15,7 @@ import ast
 
 from ..core import AnalysisError, Finding, attr_chain, call_name, norm, walk_no_nested, terminates
 from ..effects import CONTAINER_MUTATORS, Effects, FnKey
+from ..flowtools import memo_form
 
 L = "commonroad/scenario/lanelet.py"
 O = "commonroad/scenario/obstacle.py"
@@ -104,29 +105,12 @@ def discover(repo):
                 if p.get("cached"):
                     caches.append(Cache(c, pname, "cached_property", self_reads(repo, c, g) - {pname}, "functools.cached_property"))
                     continue
-                for n in g.body:
-                    if not isinstance(n, ast.If):
-                        continue
-                    t = n.test
-                    slot = None
-                    if isinstance(t, ast.UnaryOp) and isinstance(t.op, ast.Not) and isinstance(t.operand, ast.Call) and call_name(t.operand) == "hasattr":
-                        a = t.operand.args
-                        if len(a) == 2 and norm(a[0]) == "self" and isinstance(a[1], ast.Constant):
-                            slot = a[1].value
-                    elif isinstance(t, ast.Compare) and len(t.ops) == 1 and isinstance(t.ops[0], ast.Is) and isinstance(t.comparators[0], ast.Constant) and t.comparators[0].value is None:
-                        ch = attr_chain(t.left)
-                        if ch and len(ch) == 2 and ch[0] == "self":
-                            slot = ch[1]
-                    if slot is None:
-                        continue
-                    stores = [s for s in ast.walk(n) if isinstance(s, (ast.Assign, ast.AnnAssign)) and any(norm(x) == "self." + slot for x in (s.targets if isinstance(s, ast.Assign) else [s.target]))]
-                    if not stores:
-                        continue
-                    deps = set()
-                    fake = ast.FunctionDef(name="_", args=g.args, body=n.body, decorator_list=[], lineno=n.lineno)
-                    deps = self_reads(repo, c, fake) - {slot}
+                mf = memo_form(g)
+                if mf is not None:
+                    fake = ast.FunctionDef(name="_", args=g.args, body=mf["compute"], decorator_list=[], lineno=g.lineno)
+                    deps = self_reads(repo, c, fake) - {mf["slot"]}
                     if deps:
-                        caches.append(Cache(c, slot, "memo-getter", deps, "memoised in getter %s" % pname))
+                        caches.append(Cache(c, mf["slot"], "memo-getter", deps, "memoised in getter %s" % pname))
     return caches
 
 
